@@ -1792,7 +1792,8 @@ def convert_route(op, x):
             # every file saved next to the page, and whether the page mentions it by its relative path
             rel = [os.path.relpath(os.path.join(r_, fn), d).replace(os.sep, "/")
                    for r_, _, fns in sorted(os.walk(d)) for fn in sorted(fns) if fn != "page.html"]
-            out["files"] = [[fn, fn in out["text"]] for fn in rel]
+            import urllib.parse
+            out["files"] = [[fn, fn in out["text"] or urllib.parse.quote(fn) in out["text"]] for fn in rel]
         finally:
             shutil.rmtree(d, ignore_errors=True)
     elif method == "eq":
@@ -2758,13 +2759,13 @@ def run(ctx: Ctx) -> None:
     stage(ctx, "faults", lambda: run_faults(ctx, rng))       # early: what a fault leaves behind shows up below too
     routes = list(enum_routes())       # before the random trees: a failure is then reported on a small input
     stage(ctx, "prop routes", lambda: run_batch(ctx, routes, "small scope, prop routes and dict keys", rng))
-    big = big_cases(rng, ctx.quick)
-    stage(ctx, "sizes", lambda: run_batch(ctx, big, "sizes and depths", rng))
     n = ctx.budget(2500, 40000)
     step = 2500
     for k in range(0, n, step):
         stage(ctx, "random trees",
               lambda: run_batch(ctx, [gen_case(rng) for _ in range(min(step, n - k))], "random trees", rng))
+    big = big_cases(rng, ctx.quick)     # after the random trees: what also fails on a small input is reported on a small one
+    stage(ctx, "sizes", lambda: run_batch(ctx, big, "sizes and depths", rng))
     small = list(enum_small())
     if ctx.quick:
         small = rng.sample(small, 600)
